@@ -77,8 +77,9 @@ def reference_ok(name):
 
 
 class Files:
-    def __init__(self, src, names):
+    def __init__(self, src, names, s2='s2.c'):
         self.src = src
+        self.s2 = s2              # where the second source lives
         self.names = names          # h1.. -> concrete name
         self.pch = 'h0' if 'h0' in names else None
         self.ver = dict({'s1': 1, 's2': 1}, **{h: 1 for h in names})
@@ -86,6 +87,8 @@ class Files:
         self.hinc = {h: set() for h in names}
 
     def path(self, f):
+        if f == 's2':
+            return os.path.join(self.src, self.s2)
         return os.path.join(self.src, (f + '.c') if f.startswith('s')
                             else self.names[f])
 
@@ -112,15 +115,19 @@ class Files:
 
 def replay(arg):
     hist, backend, names = arg
+    names = dict(names)
+    # the second source (and so its object and depfile) may live under a
+    # path with characters the Makefile writer escapes
+    s2 = names.pop('_s2', 's2.c')
     pch = ", pch=precompiled_header(file='pch.h', includes=['.'])" \
         if 'h0' in names else ''
     p = regen.Proj({'build.bfg': "project('p')\nexecutable('prog', "
-                    "['main.c', 's1.c', 's2.c'], includes=['.']%s)\n" % pch,
+                    "['main.c', 's1.c', %r], includes=['.']%s)\n" % (s2, pch),
                     'main.c': '#include <stdio.h>\nint val_s1(void);'
                     'int val_s2(void);\nint main(void){printf("%d\\n", '
                     'val_s1() + val_s2());return 0;}\n'}, backend=backend)
     try:
-        fs = Files(p.src, names)
+        fs = Files(p.src, names, s2)
         for f in ['s1', 's2'] + sorted(names):
             fs.write(f)
         wrapper = make_wrapper(p.root)
@@ -144,8 +151,10 @@ def replay(arg):
                 if os.path.exists(cclog):
                     for line in open(cclog):
                         b = os.path.basename(line.strip())
-                        if b in ('s1.c', 's2.c'):
-                            compiled.append(b[:-2])
+                        if b == 's1.c':
+                            compiled.append('s1')
+                        elif b == os.path.basename(s2):
+                            compiled.append('s2')
                 output = -1
                 prog = os.path.join(p.bld, 'prog')
                 if rc == 0 and os.path.exists(prog):
@@ -265,6 +274,9 @@ def main(argv):
         pick = rnd.sample(names_ok, 2)
         jobs.append((h, 'make' if i % 3 else 'ninja',
                      {'h0': 'pch.h', 'h1': pick[0], 'h2': pick[1]}))
+    for i, job in enumerate(jobs):
+        if i % 3:
+            job[2]['_s2'] = ('sub dir/s 2.c', 'o#d/s$2.c')[i % 3 - 1]
     res = pmap(replay, jobs, jobs=12)
     traces = [{'id': i + 1, 'events': [
         {k: v for k, v in e.items() if k != 'note'} for e in ev]}
